@@ -151,7 +151,7 @@ def run(ctx):
     import random
     rnd = random.Random(ctx.seed)
     cases = [[n, rnd.randbytes(N).hex()] for n in T for N in T[n][1] for _ in range(4) if n != 'read_null_terminated_string']
-    cases += [['read_null_terminated_string', (b'a' * 200 + b'\x00').hex()], ['read_null_terminated_string', (b'abc').hex()]]
+    cases += [['read_null_terminated_string', (b'a' * 200 + b'\x00').hex()], ['read_null_terminated_string', (b'abc\x00d').hex()]]
     ctx.diff_unhooked(sys.modules[__name__], cases)
     ctx.expect_reach(list(T))
     ctx.pmap(job, jobs)
